@@ -115,3 +115,56 @@ def serializer_case(rng: random.Random, max_len: int = 50, p_rdflib: float = 0.4
 def input_is_ordered(cfg: dict) -> bool:
     """Does the caller define a statement *sequence* (vs. an rdflib store's set)?"""
     return cfg["integration"] == "generic"
+
+
+def valid_stream(rng: random.Random, mode: str = "generic", producer: str | None = None,
+                 delimited: bool | None = None, max_len: int = 30, min_frames: int = 1,
+                 with_ns: bool = True):
+    """A valid stream + its intended events: {'data','delimited','events','producer','frames'} or None.
+
+    producer 'pyjelly' = written by the tree under test (generic API), 'refenc' = reference producer.
+    """
+    from . import refdec, refenc, wire
+
+    producer = producer or rng.choice(["pyjelly", "refenc"])
+    if delimited is None:
+        delimited = rng.random() < 0.8
+    for _ in range(20):
+        phys = rng.choice([1, 2, 3])
+        arity = 3 if phys == 1 else 4
+        stmts = gen.statements(rng, rng.randint(max(1, min_frames), max_len), arity, mode)
+        if producer == "pyjelly":
+            cfg = {"integration": "generic", "physical": phys, "entry": "stream_frames_gen",
+                   "frame_size": rng.choice([1, 2, 3, 5, 8, 17]) if min_frames > 1 else rng.choice(gen.FRAME_SIZES),
+                   "preset": gen.preset_for(rng, stmts, phys), "delimited": delimited,
+                   "logical": pj.FLAT_LOGICAL[phys], "generalized": True, "rdf_star": True, "ns": False,
+                   "stream_name": ""}
+            try:
+                data = pj.serialize(cfg, stmts)
+            except Exception:  # noqa: BLE001
+                continue
+            events = [("stmt", s) for s in stmts]
+        else:
+            events = [("stmt", s) for s in stmts]
+            if with_ns and rng.random() < .25:
+                for prefix, iri in bindings(rng, k=2):
+                    events.insert(rng.randint(0, len(events)), ("ns", prefix, iri))
+            policy = refenc.Policy.random(rng)
+            if min_frames > 1:
+                policy.frame_cut = rng.choice(["each", "fixed", "random"])
+                policy.frame_size = rng.choice([1, 2, 3, 5])
+            try:
+                pr = refenc.produce(rng, events, refenc.make_options(
+                    rng, phys, refenc.sizes_for(rng, events, phys), any(e[0] == "ns" for e in events)),
+                    policy, delimited)
+            except refenc.InternalProducerError:
+                raise
+            except refenc.ProducerError:
+                continue
+            data = pr.data
+        frames = wire.dec_stream(data, delimited)
+        if len(frames) < min_frames:
+            continue
+        return {"data": data, "delimited": delimited, "events": events, "producer": producer, "frames": frames,
+                "physical": phys, "mode": mode}
+    return None
